@@ -201,6 +201,31 @@ def stepNS (st : NS) (op impl : String) : NS × StepOut :=
       | _ => (["unparsable"], true)
     (st, { model := if dirOk then impl else "model: survivor must be a dial of the node whose name sorts last",
            oracle := orc, nontrivial := decide (ds.length > 1) })
+  | ["e2r", _nameA, _nameB, d1, d2, _by] =>
+    -- session death, cleanup and re-election on reconnection (real handlers): k1 connections converge;
+    -- the link's session dies on one node => at rest nobody lists anything of it; k2 fresh dials
+    -- converge on one of the NEW connections; every closed session was reported disconnected once
+    let k1 := d1.length; let k2 := d2.length
+    let parseIdx (s : String) : Option (List Nat) :=
+      if s == "-" then some [] else (splitOnChar s ',').mapM (fun x => (x.drop 1).toString.toNat?)
+    let two (s : String) : Option (List Nat × List Nat) := match s.splitOn "|" with
+      | [x, y] => do pure (← parseIdx x, ← parseIdx y)
+      | _ => none
+    let orc := match words impl with
+      | [p1, p2, p3] =>
+        match two p1, two p2, p3.splitOn "|" with
+        | some (a1, b1), some (a2, b2), [ka, kb, ra, rb, da, db] =>
+          match parseIdx ka, parseIdx kb, parseIdx ra, parseIdx rb, parseIdx da, parseIdx db with
+          | some ka, some kb, some ra, some rb, some da, some db =>
+            (if e2eOk k1 a1 b1 a1 b1 then [] else ["e2e-not-one-same-link"]) ++
+            (if a2.isEmpty && b2.isEmpty then [] else ["e2e-dead-session-still-listed"]) ++
+            (if e2eOk (k1 + k2) ka kb ra rb && ka.all (· ≥ k1) then [] else ["e2e-no-re-election-after-reconnect"]) ++
+            (let expect := (List.range (k1 + k2)).filter (fun i => !ka.contains i)
+             if da == expect && db == expect then [] else ["e2e-disconnect-not-reported-once"])
+          | _, _, _, _, _, _ => ["unparsable"]
+        | _, _, _ => ["unparsable"]
+      | _ => ["unparsable"]
+    (st, { model := impl, oracle := orc, nontrivial := true })
   | ["e2t", nameA, nameB, adv] =>
     -- the election's own deadline (`CheckSession`, 500 ms): c0 dialled by B is up and ready, A dials
     -- c1, A's NodeServer is not scheduled while the clock advances by `adv` ms. Whatever `adv`: both
@@ -304,7 +329,7 @@ def step (ds : DS) (op impl : String) : DS × StepOut :=
     let ready := if impl == "true" then (pid.toNat?.map (· :: ds.readyImpl)).getD ds.readyImpl else ds.readyImpl
     let orc := if readyOk ns' ready then [] else ["two-ready-sessions-for-one-peer-on-acceptor"]
     ({ ns := ns', readyImpl := ready }, { out with oracle := out.oracle ++ orc })
-  | "visible" :: _ | "checkc" :: _ | "checks" :: _ | "elect" :: _ | "world" :: _ | "e2e" :: _ | "e2t" :: _ | "ni" :: _ | "postauth" :: _ => ({ ds with ns := ns' }, out)
+  | "visible" :: _ | "checkc" :: _ | "checks" :: _ | "elect" :: _ | "world" :: _ | "e2e" :: _ | "e2t" :: _ | "e2r" :: _ | "ni" :: _ | "postauth" :: _ => ({ ds with ns := ns' }, out)
   | _ => ({ ns := ns', readyImpl := [] }, out)
 
 def run (ops impl : Array String) : IO Tally :=
